@@ -22,7 +22,7 @@ RULE = ("annotated generated assemblies over every supported geometry (as C08) w
         " Second session: chain neighbours that share an id and name (also the default 'assembly'), input ids outside ASCII.")
 ASSUMPTIONS = ["ids are GenBank-legal (<= 16 characters of [A-Za-z0-9_]) or, now and then, empty (then no GenBank round trip is required); names are 0..28 such characters (current GenBank/Biopython accept long LOCUS names)", "the GenBank format cannot express 'unstranded': None is compared as +1"]
 FLOORS = {"c09_renamed_after_wrapping": 50, "c09_with_unused_module": 50, "c09_judged": 400, "c09_genbank_roundtrips": 400, "c09_fragment_counts_checked": 300, "c09_inner_provenance_checked": 50, "c09_registry_products": 8}
-MUST_REACH = ["add_as_source", "AssemblyManager._annotate_assembly"]
+MUST_REACH = ["AbstractVector.assemble", "AssemblyManager._annotate_assembly"]
 NEEDS_REGISTRIES = True
 BUDGET_S = {"quick": 900, "thorough": 7200}
 IDCH = "ABCDEFGHIJKLMNOPQRSTUVWXYZabcdefghijklmnopqrstuvwxyz0123456789_"
